@@ -47,6 +47,8 @@ impl SymbolicContext {
     pub fn state_variables(&self) -> &Vec<BddVariable> { unimplemented!() }
     pub fn find_network_variable(&self, _name: &str) -> Option<VariableId> { unimplemented!() }
     pub fn mk_state_variable_is_true(&self, _v: VariableId) -> Bdd { unimplemented!() }
+    pub fn as_canonical_context(&self) -> SymbolicContext { unimplemented!() }
+    pub fn transfer_from(&self, _bdd: &Bdd, _ctx: &SymbolicContext) -> Option<Bdd> { unimplemented!() }
 }
 impl SymbolicAsyncGraph {
     pub fn symbolic_context(&self) -> &SymbolicContext { unimplemented!() }
